@@ -323,7 +323,17 @@ def run(prog, run):
                             'messages are parsed in public mode', floor=2)
     ss = prog.fn('QXmppClient::sendSensitive')
     found = 0
-    for f in prog.closure(ss):
+    # sendSensitive, its continuations, and the same-file helpers they hand the (encrypted) message to
+    send_scope = list(prog.closure(ss))
+    for f in list(send_scope):
+        for i, n in f.calls():
+            if n.get('op'):
+                continue
+            for g in prog.callee_fns(f, n):
+                if g.file == ss.file and g.entry is not None and g.id not in [x.id for x in send_scope] and not g.qname.startswith('QXmppClient::') \
+                        and any('QXmppMessage' in (p_.get('t') or '') for p_ in g.params):
+                    send_scope += prog.closure(g)
+    for f in send_scope:
         for i, n in f.calls(MSG + '::toXml'):
             found += 1
             run.instance(r3)
@@ -333,7 +343,7 @@ def run(prog, run):
                 run.violation(r3, 'QXmppClient::sendSensitive#toXml-mode', f.loc(i),
                               'the encrypted message is serialized with mode %s' % (f.fmt(n['args'][1]) if len(n['args']) > 1 else 'default (SceAll)'))
     # a message handed to the wire as an object is serialized by QXmppPacket with the default mode (SceAll)
-    for f in prog.closure(ss):
+    for f in send_scope:
         for i, n in f.all_nodes('construct'):
             if n.get('cls') != 'QXmppPacket' or not n.get('args'):
                 continue
